@@ -284,6 +284,52 @@ pub fn run(cli: &Cli) -> ! {
         }
         _ => report.violation("valid-transfer-not-producible", json!({"balance": bal, "amount": amt}), json!({})),
     }
+
+    // (5) single-bit flips of the serialised transfer data: whatever still decodes must not verify
+    // (the 8 bytes of the index are the subject of the perturbations "index+1" / "index-1" above)
+    {
+        use concordium_base::common::{from_bytes, to_bytes};
+        use concordium_base::encrypted_transfers::types::{EncryptedAmountTransferData, SecToPubAmountTransferData};
+        let stride = if cli.tier == Tier::Quick { 23 } else { 1 };
+        let (enc_bal, _) = encrypt_amount(&ctx, &pks[0], Amount::from_micro_ccd(bal), &mut rng(cli.seed, 1760));
+        let input = AggregatedDecryptedAmount { agg_encrypted_amount: enc_bal.clone(), agg_amount: Amount::from_micro_ccd(bal), agg_index: EncryptedAmountAggIndex::from(7) };
+        if let Some(d) = make_transfer_data(&ctx, &pks[1], &sks[0], &input, Amount::from_micro_ccd(amt), &mut rng(cli.seed, 1761)) {
+            let bytes = to_bytes(&d);
+            let index_at = to_bytes(&d.remaining_amount).len() + to_bytes(&d.transfer_amount).len();
+            let bits: Vec<usize> = (0..bytes.len() * 8).filter(|b| b % stride == 0 && !(index_at * 8..(index_at + 8) * 8).contains(b)).collect();
+            report.set_extra("transfer_bit_flips", json!(bits.len()));
+            bits.par_iter().for_each(|&bit| {
+                case(&report, json!({"transfer_bit_flip": bit}), || {
+                    let fb = flip(&bytes, bit);
+                    report.trace(1);
+                    if let Ok(x) = from_bytes::<EncryptedAmountTransferData<C>, _>(&mut std::io::Cursor::new(&fb)) {
+                        if verify_transfer_data(&ctx, &pks[1], &pks[0], &enc_bal, &x) {
+                            return fail("altered-transfer-verifies", json!({"what": "bit flipped in the serialised transfer", "bit": bit}));
+                        }
+                    }
+                    Ok(())
+                });
+            });
+        }
+        if let Some(d) = make_sec_to_pub_transfer_data(&ctx, &sks[0], &input, Amount::from_micro_ccd(amt), &mut rng(cli.seed, 1762)) {
+            let bytes = to_bytes(&d);
+            let index_at = to_bytes(&d.remaining_amount).len() + to_bytes(&d.transfer_amount).len();
+            let bits: Vec<usize> = (0..bytes.len() * 8).filter(|b| b % stride == 0 && !(index_at * 8..(index_at + 8) * 8).contains(b)).collect();
+            report.set_extra("sec_to_pub_bit_flips", json!(bits.len()));
+            bits.par_iter().for_each(|&bit| {
+                case(&report, json!({"sec_to_pub_bit_flip": bit}), || {
+                    let fb = flip(&bytes, bit);
+                    report.trace(1);
+                    if let Ok(x) = from_bytes::<SecToPubAmountTransferData<C>, _>(&mut std::io::Cursor::new(&fb)) {
+                        if verify_sec_to_pub_transfer_data(&ctx, &pks[0], &enc_bal, &x) {
+                            return fail("altered-transfer-verifies", json!({"what": "bit flipped in the serialised secret-to-public transfer", "bit": bit}));
+                        }
+                    }
+                    Ok(())
+                });
+            });
+        }
+    }
     let _ = EncryptedAmount::<C>::join;
     let n = report.evaluations.load(std::sync::atomic::Ordering::Relaxed);
     report.state(n);
